@@ -477,6 +477,7 @@ func checkRecursionGuard(c *Ctx, pk *packages.Package) {
 	})
 	c.Check(!loops && !recurses, rule, "diff.schemaLocationKey › bounded key", c.posOf(pk, kd.Pos()), "the key reads a fixed number of location fields",
 		"the visited-set key is computed with a loop or a call over the location chain: on a cycle through nested locations every turn yields a new key and the guard never fires")
+	checkLocationKey(c, rule, pk)
 	// analyzeSchemaExtensions / compareSimpleSchema / propertiesFor recurse on finite structure
 	for _, fn := range []string{"SpecAnalyser.analyzeSchemaExtensions", "SpecAnalyser.compareSimpleSchema"} {
 		d := load.FuncDecl(pk, fn)
@@ -571,5 +572,37 @@ func checkTwinLookups(c *Ctx, r *goan.Rel) {
 			})
 			return true
 		})
+	}
+}
+
+// checkLocationKey: the visited-set key of compareSchema reads every scalar field of
+// DifferenceLocation (URL, Method, Response) and the node: two comparisons that differ in one
+// of them are different comparisons, and a key that merges them makes the second one be
+// skipped — which one depends on map iteration order.
+func checkLocationKey(c *Ctx, rule string, pk *packages.Package) {
+	kd := load.FuncDecl(pk, "schemaLocationKey")
+	obj := pk.Types.Scope().Lookup("DifferenceLocation")
+	if kd == nil || obj == nil {
+		c.Anchor(rule, "diff.schemaLocationKey / DifferenceLocation", "not found")
+		return
+	}
+	st, ok := obj.Type().Underlying().(*types.Struct)
+	if !ok {
+		c.Anchor(rule, "diff.DifferenceLocation", "not a struct")
+		return
+	}
+	used := map[string]bool{}
+	ast.Inspect(kd.Body, func(n ast.Node) bool {
+		if se, ok := n.(*ast.SelectorExpr); ok {
+			if goan.NamedName(pk.TypesInfo.TypeOf(se.X)) == "DifferenceLocation" {
+				used[se.Sel.Name] = true
+			}
+		}
+		return true
+	})
+	for i := 0; i < st.NumFields(); i++ {
+		f := st.Field(i).Name()
+		c.Check(used[f], rule, "diff.schemaLocationKey › reads DifferenceLocation."+f, c.posOf(pk, kd.Pos()), "part of the key",
+			"the visited-set key ignores DifferenceLocation."+f+": a schema referenced at two locations that differ only in "+f+" is compared at one of them only, the one map iteration reaches first — a difference is under-reported and the report changes from run to run")
 	}
 }
